@@ -215,6 +215,11 @@ pub(crate) const ROOTS_OF_UNITY: [Fq2; 4] = [
     },
 ];
 
+#[cfg(feature = "verif")]
+pub(super) fn verif_consts() -> (Fq2, Fq2, Fq2) {
+    (ELLP_A, ELLP_B, XI)
+}
+
 impl OSSWUMap for G2 {
     fn osswu_map(u: &Fq2) -> G2 {
         // compute x0 and g(x0)
